@@ -54,7 +54,11 @@ func vpField(name string, n, sparse int) []byte {
 }
 
 func vpRecord(tag string, nameLen, readLen, sparse int) *Fastq {
-	return &Fastq{Name: vpField(tag+"name", nameLen, 0), Sequence: vpField(tag+"seq", readLen, sparse), Quals: vpField(tag+"qual", readLen, sparse)}
+	nameSparse := 0
+	if nameLen >= 1000 {
+		nameSparse = 1 // a name longer than the Scanner's initial buffer
+	}
+	return &Fastq{Name: vpField(tag+"name", nameLen, nameSparse), Sequence: vpField(tag+"seq", readLen, sparse), Quals: vpField(tag+"qual", readLen, sparse)}
 }
 
 // VP_C02_RoundTrip: four-line layout, MarshalText == Write, exact read-back,
@@ -76,6 +80,8 @@ func VP_C02_RoundTrip() {
 		txt, err := f.MarshalText()
 		out := w.b[before:]
 		vpAssert(err == nil && bytes.Equal(txt, out), "MarshalText and Write produce identical bytes")
+		(&Fastq{Name: []byte("zz"), Sequence: []byte("TTTT"), Quals: []byte("!!!!")}).MarshalText()
+		vpAssert(bytes.Equal(txt, out), "bytes returned by MarshalText are not disturbed by a later MarshalText call")
 		var exp []byte
 		exp = append(exp, '@')
 		exp = append(exp, f.Name...)
